@@ -8,7 +8,7 @@ Property theorems only.  The model's consumer runs an arbitrary list of calls on
 history emitted exactly its own chunks (ordered calls in input order) under every interleaving — nothing leaks from one
 call into the next; `imap_result` gives the quiescent state between calls (no result chunk, work item or held chunk left).
 Worker availability across replacement and the termination of every call are the liveness theorems of C02
-(`imap_no_deadlock`); D19 is the recorded finding about leaving the context.
+(`imap_no_deadlock`); D19 repaired: leaving the context is covered by them too.
 -/
 namespace WindVerif.C03
 open WindVerif.Pool
